@@ -51,8 +51,26 @@ def gen_split(rng):
                                      'doc-[$id,sect$num(3)]', 'index [$title(2), file$num]']))
 
 
+# units that resolve to the same name stem: equal titles under a $title template, labels that differ only in forbidden characters
+CLASH = [('\\documentclass{article}\\begin{document}wx9001z \\section{Same Name}wx9002z \\section{Same Name}wx9003z \\subsection{Same Name}wx9004z \\end{document}',
+          ['wx9001z', 'wx9002z', 'wx9003z', 'wx9004z'], ['index [$title, file$num]', 'index [$title(2), file$num]']),
+         ('\\documentclass{article}\\begin{document}wx9011z \\section{A}\\label{sec:sum}wx9012z \\section{B}\\label{sec-sum}wx9013z \\end{document}',
+          ['wx9011z', 'wx9012z', 'wx9013z'], [None, 'index [$id, sect$num(4)]'])]
+
+
 def bounded_split(budget, rng):
     t0, n = time.time(), 0
+    for src, words, templates in CLASH:
+        for tmpl in templates:
+            for level in (1, 2):
+                n += 1
+                w = dict(src=src, words=words, level=level, template=tmpl)
+                try:
+                    ok, d = check_split(w)
+                except Exception as e:
+                    ok, d = False, 'rendering raised %s: %s' % (type(e).__name__, e)
+                if not ok:
+                    return False, n, d, w
     while time.time() - t0 < min(budget, 90) * 0.7 or n < 3:
         n += 1
         w = gen_split(rng)
@@ -68,5 +86,5 @@ def bounded_split(budget, rng):
 CONTRACTS = {}
 GROUND = []
 BOUNDED = [('bounded/render-split', 'every body word appears exactly once in exactly one output file; file names clean and identical on a second run',
-            'random sectioned documents (2-3 levels, lists, footnotes, labels) x split level in {-10,0,1,2,3,6} x 8 filename templates (several names / one name, with and without blanks and brackets); file count against the split rule; budget-limited', bounded_split)]
+            'random sectioned documents (2-3 levels, lists, footnotes, labels) x split level in {-10,0,1,2,3,6} x 8 filename templates (several names / one name, with and without blanks and brackets); file count against the split rule; plus 8 fixed cases of units that resolve to the same name stem (equal titles, labels differing in forbidden characters only); budget-limited', bounded_split)]
 CLASSES = {}
